@@ -42,6 +42,8 @@ def _job(j):
         return driver, kind, OV.work(payload)
     if kind == "tx":
         return driver, kind, TX.work(payload)
+    if kind == "txo":
+        return driver, "tx", TX.work_overlap(payload)
     raise AssertionError(kind)
 
 
@@ -65,9 +67,14 @@ def plan(tier):
     depth = 7 if quick else 9
     tags = base_tags if quick else all_tags
     keys3 = ("a", "b", "c")
+    def lsm_depth(cfg):
+        # FIFO with memtable_size=1 never collapses states (x6 per level): one level less in thorough
+        fifo1 = cat[cfg[1]][0].__name__ == "FIFOCompaction" and cfg[2] == 1
+        return depth - 1 if (fifo1 and not quick) else depth
+
     for cfg in _lsm_cfgs(tags):
-        jobs.append(("seq-lsm", "seq", (cfg, keys3, depth, 400000)))
-    bounds["seq-lsm"] = {"keys": keys3, "depth(writes)": depth, "write_alphabet": "put_sync/put/delete per key",
+        jobs.append(("seq-lsm", "seq", (cfg, keys3, lsm_depth(cfg), 400000)))
+    bounds["seq-lsm"] = {"keys": keys3, "depth(writes)": depth if quick else f"{depth} ({depth - 1} for FIFO with memtable_size=1)", "write_alphabet": "put_sync/put/delete per key",
                          "strategies": {t: cat[t][0].__name__ for t in tags}, "memtable_size": [1, 2],
                          "max_levels": [2, 3], "reads": "get_sync + get of every key, scan of every range, in every state"}
     bkeys = ("a", "b", "c", "d", "e")
@@ -176,6 +183,17 @@ def plan(tier):
                 jobs.append(("txn-3x1", "tx", (store, level, sets3[ch::10])))
     bounds["txn-3x1"] = {"transactions": 3, "ops_per_txn": 1, "stores": stores3, "levels": levels3,
                          "interleavings": "all merges of begin/op/commit (1680 per program set)"}
+    # transactions as separate processes overlapping in simulated time (reads suspended across commits)
+    osets = list(itertools.product(p2, repeat=2))
+    ostores = ["kv", "btree"] if quick else list(TX.STORES)
+    for store in ostores:
+        for level in ("SERIALIZABLE", "SNAPSHOT_ISOLATION"):
+            for ch in range(4):
+                jobs.append(("txn-overlap", "txo", (store, level, osets[ch::4], 200_000)))
+    bounds["txn-overlap"] = {"transactions": 2, "ops_per_txn": "<=2", "stores": ostores,
+                             "levels": ["SERIALIZABLE", "SNAPSHOT_ISOLATION"],
+                             "offsets": f"T1 at 0, T2 at 0,{TX.TX_GRID_NS},.. ns until lifetimes no longer overlap",
+                             "program_sets": "ordered pairs"}
     if not quick:
         p3 = TX.txn_programs(3)
         sets23 = [s for s in itertools.combinations_with_replacement(p3, 2) if max(len(s[0]), len(s[1])) == 3]
@@ -274,6 +292,7 @@ def main(tier, seed, only=None):
             a["outcomes"] |= st["outcomes"]
             a["unfinished"] += st["unfinished"]
             a["aborts"] += st["aborts"]
+            a["cap_hits"] += st.get("cap_hits", 0)
             d.samples.extend(st["samples"][:1])
     for driver, a in agg.items():
         d = run.drivers[driver]
@@ -303,6 +322,9 @@ def main(tier, seed, only=None):
         if driver.startswith("txn"):
             d.extra["aborted_commits"] = a["aborts"]
             d.extra["unfinished"] = a["unfinished"]
+            if a["cap_hits"]:
+                d.exhaustive = False
+                d.caps.append(f"offset walk hit the cap in {a['cap_hits']} program sets")
     run.notes.append(f"pool wall for all jobs: {time.time() - t0:.1f}s over {len(jobs)} jobs")
     return run.finish()
 
@@ -318,5 +340,7 @@ def replay(data):
         return OV.replay_overlap(rep)
     if drv == "txn":
         return TX.replay_txn(rep)
+    if drv == "txn-overlap":
+        return TX.replay_txn_overlap(rep)
     print(f"unknown replay driver {drv!r}")
     return 0
